@@ -341,7 +341,7 @@ func (s *scen) v1Timelocks() {
 	if s.c.Rng.IntN(2) == 0 {
 		uc2.PublicKeys[0], uc2.PublicKeys[1] = uc2.PublicKeys[1], uc2.PublicKeys[0]
 	}
-	l3 := &chaingen.Lock{Kind: "uc-unknown-alg", Addr: uc2.UnlockHash(), UC: &uc2, UCSigners: []int{0, 1}, Policy: types.SpendPolicy{Type: types.PolicyTypeUnlockConditions(uc2)}, PolKeys: []types.PublicKey{k.PublicKey()}}
+	l3 := &chaingen.Lock{Kind: "uc-unknown-alg", Addr: uc2.UnlockHash(), UC: &uc2, UCSigners: []int{0, 1}, Policy: types.SpendPolicy{Type: types.PolicyTypeUnlockConditions(uc2)}, PolKeys: []types.PublicKey{k.PublicKey()}, V2MinParent: 1 << 40} // never picked for v2 spends by the generator
 	s.c.W.Locks[l3.Addr] = l3
 	if id, ok := s.payTo(l3.Addr); ok {
 		T3 := s.c.Height() + 3
@@ -482,11 +482,48 @@ func (s *scen) v1Contracts() {
 	for i := range data {
 		data[i] = byte(i * 7)
 	}
-	blk, bs, ids, err := s.c.BlockWithV1Contracts([]chaingen.V1ContractSpec{{Data: data, WindowStart: W, WindowEnd: W + 4}})
+	blk, bs, ids, err := s.c.BlockWithV1Contracts([]chaingen.V1ContractSpec{{Data: data, WindowStart: W, WindowEnd: W + 4}, {Data: data, WindowStart: W + 40, WindowEnd: W + 44}})
 	if err != nil || ids[0] == (types.FileContractID{}) || s.c.Offer(blk, bs, nil) != nil {
 		return
 	}
 	id := ids[0]
+	idFar := ids[1] // second contract, window far away (zero ID if it could not be funded)
+	// a revision and a storage proof of the same contract in one block: the window that counts is the one of the
+	// contract as it stands after the revision. later=true moves the window of the first contract far away and then
+	// offers the proof (never allowed in the probed range); later=false pulls the far window of the second contract
+	// to this very block and proves it (allowed at once).
+	mkRevThenProof := func(cid types.FileContractID, later bool) func() (types.Block, consensus.V1BlockSupplement, error) {
+		return func() (types.Block, consensus.V1BlockSupplement, error) {
+			e, ok := s.c.S.FCEs[cid]
+			if !ok {
+				return types.Block{}, consensus.V1BlockSupplement{}, fmt.Errorf("contract gone")
+			}
+			tip := s.c.Tip()
+			child := tip.Index.Height + 1
+			info := s.c.V1Infos[e.FileContract.UnlockHash]
+			rev := e.FileContract
+			rev.RevisionNumber++
+			if later {
+				rev.WindowStart, rev.WindowEnd = W+20, W+25
+			} else {
+				rev.WindowStart, rev.WindowEnd = child, child+3
+			}
+			rt := types.Transaction{FileContractRevisions: []types.FileContractRevision{{ParentID: cid, UnlockConditions: info.UC, FileContract: rev}}}
+			s.c.SignV1(tip, &rt, nil)
+			// the challenge an honest prover would answer in this block: seeded by the parent block
+			idx := tip.StorageProofLeafIndex(rev.Filesize, tip.Index.ID, cid)
+			if later {
+				if wid, ok := s.c.BlockIDAt(e.FileContract.WindowStart - 1); ok {
+					idx = tip.StorageProofLeafIndex(rev.Filesize, wid, cid) // the old window's challenge, if that block exists
+				}
+			}
+			sp := types.StorageProof{ParentID: cid, Leaf: refmodel.FileSegment(data, int(idx))}
+			for _, h := range refmodel.Proof(refmodel.FileLeaves(data), int(idx)) {
+				sp.Proof = append(sp.Proof, types.Hash256(h))
+			}
+			return s.c.BlockWith([]types.Transaction{rt, {StorageProofs: []types.StorageProof{sp}}}, nil)
+		}
+	}
 	mkRev := func() (types.Block, consensus.V1BlockSupplement, error) {
 		e, ok := s.c.S.FCEs[id]
 		if !ok {
@@ -532,7 +569,15 @@ func (s *scen) v1Contracts() {
 		}{
 			{"v1-revision-until-window-opens", mkRev, child <= W, re("after its proof window has opened")},
 			{"v1-storage-proof-from-window-start", mkProof, child >= W && child <= W+4, re("cannot be submitted until after window start|nonexistent file contract|not present in the accumulator")},
+			{"v1-storage-proof-after-same-block-revision/window-moved-later", mkRevThenProof(id, true), false, re("cannot be submitted until after window start")},
+			{"v1-storage-proof-after-same-block-revision/window-pulled-to-this-block", mkRevThenProof(idFar, false), idFar != (types.FileContractID{}), re("cannot be submitted until after window start")},
 		} {
+			if pr.name == "v1-storage-proof-after-same-block-revision/window-moved-later" && child > W {
+				continue // the contract's own window has opened: it can no longer be revised
+			}
+			if pr.name == "v1-storage-proof-after-same-block-revision/window-pulled-to-this-block" && idFar == (types.FileContractID{}) {
+				continue
+			}
 			b2, bs2, err := pr.mk()
 			got := false
 			var verr error = err
